@@ -32,13 +32,13 @@ CLAIMED = {
             "Residue: equivariance of float arithmetic on origin-free values."),
     "C09": ("§2 C09", "rounding-idiom classification of level->index conversion, two-sided on-grid test, guard dominance (CFG), sibling agreement of rise/recession, CLI wiring",
             "Residue: numeric tolerance of the on-grid test."),
-    "C10": ("§2 C10", "SQL AST rules on grid bounds / copies / row order (rowid-alias lemma), interpolation argument lineage and index-space agreement, closed validity intervals",
+    "C10": ("§2 C10", "SQL AST rules on grid bounds / copies / row order (rowid-alias lemma), interpolation argument lineage and index-space agreement, validity intervals as symbolic sequences (first grid instant, per-gap samples, last grid instant), sentinel and gap predicate normal forms",
             "Residue: numeric equality of np.interp; gap detection threshold."),
     "C11": ("§2 C11", "time-zone API provenance discipline, same-zone def-use, guard dominance of refusals over writes (CFG + call graph)",
             "Residue: pytz tables; DST-ambiguous hours."),
     "C12": ("§2 C12", "library API resolution against installed numpy/scipy, rounding-function agreement and half-open range shapes, bracket index agreement, default interpolant",
             "Residue: brentq tolerance; samples one ulp beside a level."),
-    "C13": ("§2 C13", "entity typing of SQL joins from the FK graph, interval-kind predicates, column lineage to sinks, parallel-list alignment, cursor typestate, grid containment",
+    "C13": ("§2 C13", "entity typing of SQL joins from the FK graph, interval-kind predicates, lineage of every stored row resolved through loop bindings / per-row lists / index look-ups, grid-step lineage, index-translation table, cursor typestate, grid containment",
             "Residue: top level when max/step is an integer (documented numeric edge)."),
     "C14": ("§2 C14", "constant propagation to splrep (s=0,k=3), clamp normal form, order-cell evaluation of integrate over all weak orderings of (a,b,xmin,xmax), delegation",
             "Residue: FITPACK itself; splint modelled as documented."),
@@ -100,11 +100,11 @@ def main():
             "name": "spverif",
             "path": "/verif/spverif",
             "serves_properties": [c["property_id"] for c in checks],
-            "kind_free_text": "repository-specific static analyser (ast + hand-built CFG/dominators/reaching definitions, SQL parser and schema model, algebraic/comparison normal forms, small abstract domains); pure stdlib, run with /venv/bin/python; imports numpy/scipy/pytz only to read their exported names",
+            "kind_free_text": "repository-specific static analyser: semantics-preserving normal forms applied to every AST first (single-use temporaries, aliases, literal order, helpers the rules have never read unfolded), then ast + hand-built CFG / dominators / mutation-aware reaching definitions, loop-variable bindings, SQL parser and schema model with result and parameter bindings, algebraic / comparison normal forms, order-cell and finite-skeleton evaluation, symbolic sequences, small abstract domains; pure stdlib, run with /venv/bin/python; imports numpy/scipy/pytz only to read their exported names",
         }],
         "checks": checks,
         "not_applicable": na,
-        "notes": "All checks are static: they parse /repo's current working tree on every run and never import or execute spowtd. Exit 2 + ANALYSIS-ERROR means the analysis could not decide (anchor vanished); it is never reported as a VIOLATION.",
+        "notes": "All checks are static: they parse /repo's current working tree on every run and never import or execute spowtd. Every obligation has three outcomes: holds; a construct that is present is wrong (VIOLATION naming it, exit 1); the construction is not one the rule reads (ANALYSIS-ERROR, exit 2 -- never a VIOLATION). The thorough tier adds self-validation on the current tree: labelled breaking / preserving edits, 41 independently written breaking changes (seeded/) and 57 independently written behaviour-preserving refactorings (preserving/), applied in memory.",
     }
     with open(os.path.join(ROOT, "MANIFEST.json"), "w") as fh:
         json.dump(manifest, fh, indent=1)
